@@ -9,7 +9,12 @@ SIMULATED = ["client issuing the operation sequence", "wall clock (SimClock)",
              "I/O fault decisions and torn/lost buffered writes (SimFS proxy around real files)",
              "process restarts (fresh module objects, only files survive)",
              "OS entropy / other tenants of the global PRNG", "Ctrl-C / kill at a seeded step (StepClock)",
-             "pristine reference = same code in a never-used forked process"]
+             "signal handlers and exit hooks of the simulated process", "failing / short system calls (open, write, close, rename, mkdir, remove)",
+             "home and temp directories, mounts (EXDEV), locale encoding, warning filters, decimal context of the host process",
+             "a second invocation running at the same time (forked partner, seeded token over file-system events)",
+             "scheduling of threads the code starts (seeded baton scheduler; inert while there are none)",
+             "callers editing returned values and their own descriptions in place",
+             "pristine reference = same code in a never-used process (for C10/C12/C15 a fresh interpreter with another string-hash seed)"]
 
 
 def gen_env(rng, faulty=True):
